@@ -8,12 +8,22 @@
 #include <signal.h>
 using namespace hist;
 
-// CPU-time watchdog per case: a case normally takes milliseconds; one that burns tens of CPU seconds
-// (ITIMER_VIRTUAL: process CPU time, not wall clock, so machine load does not matter) never returns
-// its promised result. The driver replays such a case three times before reporting it.
-static void on_cpu_limit(int) { const char m[] = "CASE-CPU-LIMIT\n"; ssize_t w = write(2, m, sizeof m - 1); (void)w; _exit(98); }
+// CPU-time watchdog: an API call normally takes micro- to milliseconds; one that burns tens of CPU seconds
+// (ITIMER_VIRTUAL: process CPU time, not wall clock, so machine load does not matter) never returns its
+// promised result. Ticks are counted per outermost API call and only while the library runs (shim flag):
+// what the harness itself spends on a large case (models, comparisons) is not the library's doing. A case
+// whose total exceeds ten times the limit is abandoned as inconclusive (exit 97), never reported.
+// The driver replays a stopped case three times before reporting it.
+static volatile int g_case_ticks = 0;
+static int g_tick_limit = 60;
+static void on_cpu_tick(int) {
+  g_case_ticks++;
+  if (sh_in_library && ++sh_call_ticks >= g_tick_limit) { const char m[] = "CASE-CPU-LIMIT\n"; ssize_t w = write(2, m, sizeof m - 1); (void)w; _exit(98); }
+  if (g_case_ticks >= 10 * g_tick_limit) { const char m[] = "CASE-HARNESS-BUDGET\n"; ssize_t w = write(2, m, sizeof m - 1); (void)w; _exit(97); }
+}
 static void arm_watchdog(int seconds) {
-  struct itimerval it; memset(&it, 0, sizeof it); it.it_value.tv_sec = seconds;
+  g_tick_limit = seconds; g_case_ticks = 0; sh_call_ticks = 0;
+  struct itimerval it; memset(&it, 0, sizeof it); it.it_value.tv_sec = 1; it.it_interval.tv_sec = 1;
   setitimer(ITIMER_VIRTUAL, &it, nullptr);
 }
 
@@ -63,7 +73,7 @@ int main(int argc, char** argv) {
   PropSpec ps = special::full_spec(prop, tier);
   if (ps.enabled == 0) { fprintf(rep, "unknown property %s\n", prop.c_str()); return 2; }
 
-  signal(SIGVTALRM, on_cpu_limit);
+  signal(SIGVTALRM, on_cpu_tick);
   const int cpu_limit = tier.thorough ? 240 : 60;
   if (!replay.empty()) {
     arm_watchdog(cpu_limit);
@@ -79,12 +89,13 @@ int main(int argc, char** argv) {
   Stats st; st.rule = ps.rule ? ps.rule : "";
   CurCase cur; if (!curpath.empty()) cur.open(curpath);
   bool failed = false; Fail ff; History fh;
+  History first_fh; Fail first_ff;   // the failing history as first found (before any in-process shrinking)
 
   auto one = [&](const History& h) -> bool {
     cur.put(to_text(h));
     arm_watchdog(cpu_limit);
     CaseResult cr = special::run_any(h, ps, &st);
-    if (cr.failed) { failed = true; ff = cr.first; fh = h; return false; }
+    if (cr.failed) { if (!failed) { first_fh = h; first_ff = cr.first; } failed = true; ff = cr.first; fh = h; return false; }
     return true;
   };
 
@@ -102,17 +113,17 @@ int main(int argc, char** argv) {
       if (failed && ++shrink_execs > (fh_steps > 2000 ? 40 : shrink_budget)) return;
       Chooser ch(choices.data(), choices.size());
       History h = special::generate(ps, ch);
-      if (!one(h)) { fh_steps = 0; for (auto& sc : fh.scripts) fh_steps += sc.steps.size(); RC_FAIL(ff.sig + " :: " + ff.msg); }
+      if (!one(h)) { fh_steps = 40 * fh.scripts.size(); for (auto& sc : fh.scripts) fh_steps += sc.steps.size(); RC_FAIL(ff.sig + " :: " + ff.msg); }   // cost: steps, and sessions (each may be run alone in its own process)
     });
   }
   cur.clear();
   std::string replay_path;
   if (failed) {
     // crash-safe: publish the failure as found before minimising it further (a candidate may kill the process)
-    if (!failout.empty()) write_file(failout, "# property " + prop + "\n# signature " + ff.sig + "\n# " + ff.msg + "\n" + to_text(fh));
+    if (!failout.empty()) { std::string t0 = "# property " + prop + "\n# signature " + ff.sig + "\n# " + ff.msg + "\n" + to_text(fh); write_file(failout, t0); write_file(failout + ".orig", "# property " + prop + "\n# signature " + first_ff.sig + "\n# " + first_ff.msg + "\n" + to_text(first_fh)); }
     if (!out.empty()) write_stats(out, prop, st, true, ff.sig, ff.msg, failout, extra_json);
     // rapidcheck's last failing execution is its shrunk counterexample; minimise further on steps
-    size_t nsteps = 0; for (auto& sc : fh.scripts) nsteps += sc.steps.size();
+    size_t nsteps = 40 * fh.scripts.size(); for (auto& sc : fh.scripts) nsteps += sc.steps.size();
     History m = special::minimise_any(fh, ps, ff.sig, nsteps > 2000 ? 60 : 500);
     Fail f2 = ff;
     { CaseResult cr = special::run_any(m, ps, nullptr); if (cr.failed) f2 = cr.first; }
